@@ -443,11 +443,26 @@ class ParquetFileLoader(
         data : instance of DataFieldRecordArray
             The DataFieldRecordArray holding the loaded data.
         """
-        assert_file_exists(self.pathfilename_list[0])
-        table = self.pq.read_table(self.pathfilename_list[0], columns=keep_fields)
-        for pathfilename in self.pathfilename_list[1:]:
+        if isinstance(keep_fields, str):
+            keep_fields = [keep_fields]
+
+        def _read_table(pathfilename):
             assert_file_exists(pathfilename)
-            next_table = self.pq.read_table(pathfilename, columns=keep_fields)
+            # Request only those to-be-kept fields, which are present in the
+            # file. Like the other file loaders, fields that are not present
+            # in the file are ignored.
+            columns = None
+            if keep_fields is not None:
+                columns = [
+                    fname
+                    for fname in self.pq.read_schema(pathfilename).names
+                    if fname in keep_fields
+                ]
+            return self.pq.read_table(pathfilename, columns=columns)
+
+        table = _read_table(self.pathfilename_list[0])
+        for pathfilename in self.pathfilename_list[1:]:
+            next_table = _read_table(pathfilename)
             table = self.pa.concat_tables([table, next_table])
 
         data = DataFieldRecordArray(
